@@ -243,6 +243,10 @@ def run(ctx):
     rng = ctx.rng
     ctx.check_theorems('Properties/C18.v')
 
+    # ---------------- results depend on the VALUES given only (call protocol), first in a process that has not called dpss yet ...
+    from props import _purity
+    _purity.run_protocol(ctx, ['dpss'], prefix='values_only_first')
+
     # ---------------- correspondence 1: default k
     cases = []; meta = []
     for _ in range(ctx.q(60, 300)):
@@ -421,5 +425,5 @@ def run(ctx):
             pass
 
     # ---------------- results depend on the VALUES given only: call protocol (repeat, aliasing, buffer reuse, memory layout, integer / single-precision dtypes)
-    from props import _purity
+    # ... and again after everything above has run in this process
     _purity.run_protocol(ctx, ['dpss'])
